@@ -27,11 +27,17 @@ func parseTypes(spec string) map[int]ddptypes.Type {
 		f := strings.Split(e, ":")
 		id, _ := strconv.Atoi(f[0])
 		name := fmt.Sprintf("N%03s", f[2])
-		st := &ddptypes.StructType{Name: name, GramGender: ddptypes.MASKULIN}
-		if f[1] == "1" {
-			res[id] = ddptypes.ListType{ElementType: st}
-		} else {
-			res[id] = st
+		switch f[1] {
+		case "0":
+			res[id] = &ddptypes.StructType{Name: name, GramGender: ddptypes.MASKULIN}
+		case "1":
+			res[id] = ddptypes.ListType{ElementType: &ddptypes.StructType{Name: name, GramGender: ddptypes.MASKULIN}}
+		case "2": // type alias of an earlier entry
+			target, _ := strconv.Atoi(f[3])
+			res[id] = &ddptypes.TypeAlias{Name: name, Underlying: res[target], GramGender: ddptypes.MASKULIN}
+		case "3": // list over an earlier entry
+			target, _ := strconv.Atoi(f[3])
+			res[id] = ddptypes.ListType{ElementType: res[target]}
 		}
 	}
 	return res
